@@ -56,6 +56,17 @@ inline int value_cat(ExecCtx &c, const void *obj, unsigned which, bool allow_xva
   return cat;
 }
 #define SIM_FWD(x) std::forward<decltype(x)>(x)
+// lvalue categories only (for types whose move operations are deleted, and for
+// operands an operation never takes as rvalues)
+template <class X, class F>
+void as_lv(int cat, const X &x, F &&f) {
+  if (cat == CAT_LVALUE) {
+    probe(PR_NONCONST_OPERAND);
+    f(const_cast<X &>(x));
+  } else {
+    f(x);
+  }
+}
 template <class X, class F>
 void as_cat(int cat, const X &x, F &&f) {
   if (cat == CAT_XVALUE) {
